@@ -67,4 +67,52 @@ example : (cli { input := "a.py", output := some "o.txt", cOpts := [] } [("a.py"
     some ("o.txt", defaultOpts) := by
   simp [cli, cliEffects, cliRun, cliOptions, List.lookup]
 
+theorem lookup_filter_ne (fs : Fs) (f out : String) (h : f ≠ out) :
+    (fs.filter (·.1 != out)).lookup f = fs.lookup f := by
+  induction fs with
+  | nil => rfl
+  | cons p rest ih =>
+    obtain ⟨k, v⟩ := p
+    by_cases hk : k = out
+    · subst hk
+      have : (f == k) = false := by simpa using h
+      simp [List.filter, List.lookup, this, ih]
+    · have hk' : (k != out) = true := by simpa using hk
+      simp only [List.filter, hk', List.lookup]
+      split <;> simp_all
+
+theorem run_frame (a : CliArgs) (f : String) (hf : a.output ≠ some f) :
+    ∀ (es : List CliEffect) (fs : Fs) (o : Opts), (cliRun a fs es o).fs.lookup f = fs.lookup f
+  | [], fs, o => rfl
+  | e :: es, fs, o => by
+    have ih := run_frame a f hf es
+    cases e <;> simp only [cliRun]
+    all_goals (repeat' split) <;> (try rfl) <;> (try exact ih _ _)
+    all_goals
+      rename_i out hout
+      rw [ih]
+      have hne : f ≠ out := by intro e; subst e; exact hf hout
+      have : (f == out) = false := by simpa using hne
+      simp only [List.lookup, this]
+      exact lookup_filter_ne fs f out hne
+
+/-- **frame**: whatever the arguments and whatever happens (error or success), every file other than the `-o`
+    target keeps its contents -/
+theorem only_output_touched (a : CliArgs) (fs : Fs) (f : String) (hf : a.output ≠ some f) :
+    (cli a fs).fs.lookup f = fs.lookup f := run_frame a f hf _ fs _
+
+/-- the file system after a sequence of invocations -/
+def cliSeq (fs : Fs) : List CliArgs → Fs
+  | [] => fs
+  | a :: as => cliSeq (cli a fs).fs as
+
+/-- any sequence of invocations, failing or not, leaves a file that none of them names as `-o` as it was -/
+theorem seq_frame (as : List CliArgs) (fs : Fs) (f : String) (h : ∀ a ∈ as, a.output ≠ some f) :
+    (cliSeq fs as).lookup f = fs.lookup f := by
+  induction as generalizing fs with
+  | nil => rfl
+  | cons a rest ih =>
+    simp only [cliSeq]
+    rw [ih _ (fun b hb => h b (by simp [hb])), only_output_touched a fs f (h a (by simp))]
+
 end OlVerif.C16
